@@ -33,6 +33,11 @@ def step (s : IndexSpec.Spec) (toks : List String) : IndexSpec.Spec × String :=
       | some snaps => (s, fmtEpochs (protectedSnaps keep iv snaps))
       | none => (s, "bad-op")
     | _, _, _ => (s, "bad-op")
+  | ["offered", pts, keep, since] => match parseNat pts, parseNat keep, parseNat since with
+    -- safe batches: each batch since the last open was persisted under its own epoch, so the configured
+    -- number of rollback points (or as many as there were batches) must be on offer
+    | some pts, some keep, some since => (s, if min keep since ≤ pts then "ok" else "TOO-FEW-ROLLBACK-POINTS")
+    | _, _, _ => (s, "bad-op")
   | _ => C01.step s toks
 
 end Bleve.Drv.C13
